@@ -246,6 +246,7 @@ func init() {
 		wc := buildWire(w, r)
 		wireMatch(w, wc, r)
 		wireSequenceFrame(w, r, "C05", map[string]bool{"MatchPair": true})
+		wireEveryMatchField(w, wc, r, "C05", codecLangs)
 		wireAssumptions(r)
 	})
 	register("C06", "Checksum fields: every codec generator's encoder cell depends on byte order, the field's type and the algorithm name, every decoder cell on byte order and type; the field's raw type spelling is read only through GetType; the checksum emission sits inside the ordered per-field loop (so 'preceding bytes' are what earlier fields wrote). "+
@@ -276,6 +277,7 @@ func init() {
 		reportCells(r, "C15/lua-sensitivity", wc.cells["lua/dec"])
 		r.floor("C15/lua-sensitivity", 8)
 		wireBeColumn(wc, r, "C15")
+		wireEveryMatchField(w, wc, r, "C15", []string{"lua"})
 		wireTemplateTaint(w, wc, r, "C15", []string{"lua"})
 		wireBracketBalance(w, wc, r, "C15", map[string]bool{"code": true, "test": true, "only-lua": true})
 		wireLuaSizes(wc, r)
